@@ -42,8 +42,9 @@ struct ticket_spinlock {
 	}
 
 	bool is_locked() {
-		return __atomic_load_n(&serving_ticket_, __ATOMIC_RELAXED)
-			< __atomic_load_n(&next_ticket_, __ATOMIC_RELAXED);
+		// The counters run freely modulo 2^32; only (in)equality is meaningful across the wrap-around.
+		auto serving = __atomic_load_n(&serving_ticket_, __ATOMIC_RELAXED);
+		return serving != __atomic_load_n(&next_ticket_, __ATOMIC_RELAXED);
 	}
 
 	void unlock() {
